@@ -580,3 +580,29 @@ pub fn timecreate(f: &[&str]) -> String {
     let src = String::from_utf8(hex_bytes(f[2])).expect("utf8 source");
     in_child(60000, move || by_width!(w, timecreate_w, level, &src))
 }
+
+fn runbcmem_w<C: CellType>(backend: &str, text: &str, lo: isize, hi: isize) -> String {
+    let mut t = Toks::new(text);
+    let p = parse_bc::<C>(&mut t);
+    let mut ctx = Context::<C>::new(None, None);
+    let r = match backend {
+        "bc" => BcInterpreter::<C>::verif_from_bytecode(p).execute(&mut ctx),
+        "jit" => BaseJitCompiler::<C>::verif_from_bytecode(p).execute(&mut ctx),
+        _ => return "ERR backend".into(),
+    };
+    if r.is_err() {
+        return "err".into();
+    }
+    let cells: Vec<String> = (lo..=hi).map(|k| ctx.memory.read(k).into_u64().to_string()).collect();
+    cells.join(",")
+}
+
+/// runbcmem|backend|w|lo|hi|bc-text : run a hand-made bytecode program and print cells lo..hi
+pub fn runbcmem(f: &[&str]) -> String {
+    let backend = f[0].to_string();
+    let w: u32 = f[1].parse().unwrap();
+    let lo: isize = f[2].parse().unwrap();
+    let hi: isize = f[3].parse().unwrap();
+    let text = f[4].to_string();
+    in_child(10000, move || by_width!(w, runbcmem_w, &backend, &text, lo, hi))
+}
